@@ -136,7 +136,9 @@ def expected_wire(intent: dict, s: dict) -> dict:
     fam = (intent['afi'], intent['safi'])
     out_attrs: dict = {}
     out_attrs['origin'] = a.get('origin', 0)
-    if a.get('as_path'):  # an explicitly empty 'as-path [ ]' says nothing: the default applies
+    if 'as_path' in a and not a['as_path']:
+        out_attrs['as_path'] = '*empty-or-default*'  # an explicitly empty 'as-path [ ]' on eBGP has no defined meaning
+    elif 'as_path' in a:
         out_attrs['as_path'] = rw.normalise_path(a['as_path'])
     else:
         out_attrs['as_path'] = [] if s['ibgp'] else [(2, [s['local_as']])]
